@@ -200,6 +200,10 @@ def Prog.ofOutcome {α : Type} : Outcome α → Prog α
 inductive Res where
   | ok (reply : Bytes)
   | err (msg : Bytes)
+  /-- reply = `hdr` followed by the `groups` in an order fixed by Go map iteration (any permutation) -/
+  | okPerm (hdr : Bytes) (groups : List Bytes)
+  /-- reply = `hdr` followed by `k` of the `groups` chosen by math/rand (pairwise distinct iff `distinct`) -/
+  | okPick (hdr : Bytes) (k : Nat) (distinct : Bool) (groups : List Bytes)
 deriving DecidableEq, Repr, Inhabited
 
 end Sugar
